@@ -18,7 +18,7 @@ _TABLE = []     # (compiled regex, fn(ex, m, args, fr, dest))
 
 def model(pattern):
     def deco(fn):
-        _TABLE.append((re.compile(pattern + r'$'), fn))
+        _TABLE.append((re.compile('(?:' + pattern + r')$'), fn))
         return fn
     return deco
 
@@ -36,7 +36,10 @@ def dispatch(ex, c, args, fr, dest):
                 ents.append((fn, m))
         _cache[c] = ents
     for fn, m in ents:
-        r = fn(ex, m, args, fr, dest)
+        try:
+            r = fn(ex, m, args, fr, dest)
+        except (IndexError, AttributeError, TypeError, KeyError) as e:
+            raise Unsupported('model %s failed on %s: %r' % (fn.__name__, c, e))
         if r is not NotImplemented:
             ex.E.stats.models_used.add(fn.__name__)
             return r
@@ -760,7 +763,7 @@ def get_context(ex, m, a, fr, dest):
     return a[0]
 
 
-@model(r'(?:std::boxed::)?Box::<.*>::new|(?:std::boxed::)?Box::<.*>::pin')
+@model(r'(?:std::boxed::)?Box::<.*>::new|(?:std::boxed::)?Box::<.*>::pin')  # noqa
 def box_new(ex, m, a, fr, dest):
     b = Agg('Box', None, [a[0]])
     if m.group(0).endswith('pin'):
@@ -995,7 +998,7 @@ def iter_next(ex, m, a, fr, dest):
     return NotImplemented
 
 
-@model(r'<.* as Iterator>::peekable|<.* as Iterator>::by_ref|<.* as Iterator>::fuse')
+@model(r'<.* as Iterator>::peekable(?:::<.*>)?|<.* as Iterator>::by_ref(?:::<.*>)?|<.* as Iterator>::fuse(?:::<.*>)?')
 def iter_peekable(ex, m, a, fr, dest):
     return as_pyiter(ex, a[0])
 
@@ -1062,7 +1065,7 @@ def iter_flat_map(ex, m, a, fr, dest):
     return PyIter(g())
 
 
-@model(r'<.* as Iterator>::flatten')
+@model(r'<.* as Iterator>::flatten(?:::<.*>)?')
 def iter_flatten(ex, m, a, fr, dest):
     it = as_pyiter(ex, a[0])
 
@@ -1073,7 +1076,7 @@ def iter_flatten(ex, m, a, fr, dest):
     return PyIter(g())
 
 
-@model(r'<.* as Iterator>::rev|<.* as DoubleEndedIterator>::rev')
+@model(r'<.* as Iterator>::rev(?:::<.*>)?|<.* as DoubleEndedIterator>::rev(?:::<.*>)?')
 def iter_rev(ex, m, a, fr, dest):
     it = as_pyiter(ex, a[0])
     items = drain(it)
@@ -1081,13 +1084,13 @@ def iter_rev(ex, m, a, fr, dest):
     return PyIter(iter(items), len(items))
 
 
-@model(r'<.* as Iterator>::cloned|<.* as Iterator>::copied')
+@model(r'<.* as Iterator>::cloned(?:::<.*>)?|<.* as Iterator>::copied(?:::<.*>)?')
 def iter_cloned(ex, m, a, fr, dest):
     it = as_pyiter(ex, a[0])
     return PyIter((clone_value(ex, deref(x)) for x in _gen(it)), it.size)
 
 
-@model(r'<.* as Iterator>::enumerate')
+@model(r'<.* as Iterator>::enumerate(?:::<.*>)?')
 def iter_enumerate(ex, m, a, fr, dest):
     it = as_pyiter(ex, a[0])
     return PyIter((Agg('tuple', None, [i, x]) for i, x in enumerate(_gen(it))), it.size)
@@ -1131,7 +1134,7 @@ def iter_for_each(ex, m, a, fr, dest):
     return UNIT
 
 
-@model(r'<.* as Iterator>::count')
+@model(r'<.* as Iterator>::count(?:::<.*>)?')
 def iter_count(ex, m, a, fr, dest):
     return len(drain(as_pyiter(ex, a[0])))
 
@@ -1153,7 +1156,7 @@ def iter_sum(ex, m, a, fr, dest):
     return t
 
 
-@model(r'<.* as Iterator>::max|<.* as Iterator>::min')
+@model(r'<.* as Iterator>::max(?:::<.*>)?|<.* as Iterator>::min(?:::<.*>)?')
 def iter_max(ex, m, a, fr, dest):
     items = drain(as_pyiter(ex, a[0]))
     if not items:
@@ -2055,13 +2058,13 @@ def iter_position(ex, m, a, fr, dest):
     return none()
 
 
-@model(r'<.* as Iterator>::last')
+@model(r'<.* as Iterator>::last(?:::<.*>)?')
 def iter_last(ex, m, a, fr, dest):
     items = drain(as_pyiter(ex, a[0]))
     return some(items[-1]) if items else none()
 
 
-@model(r'<.* as Iterator>::nth')
+@model(r'<.* as Iterator>::nth(?:::<.*>)?')
 def iter_nth(ex, m, a, fr, dest):
     it = as_pyiter(ex, a[0])
     n = ex.concretize(a[1], 0, 64, 'nth')
@@ -2073,7 +2076,7 @@ def iter_nth(ex, m, a, fr, dest):
     return o
 
 
-@model(r'<.* as DoubleEndedIterator>::next_back')
+@model(r'<.* as DoubleEndedIterator>::next_back(?:::<.*>)?')
 def iter_next_back(ex, m, a, fr, dest):
     it = deref(a[0])
     if not isinstance(it, PyIter):
@@ -2374,3 +2377,37 @@ def str_index_range(ex, m, a, fr, dest):
     cs = _char_index_of_byte(ex, s, start, fr, 'range start boundary')
     ce = _char_index_of_byte(ex, s, end, fr, 'range end boundary')
     return str_simplify(SymStr(s.chars[cs:ce], ce - cs))
+
+
+class UninitBox(Model):
+    """Box<MaybeUninit<[T; N]>> as produced by the vec![..] lowering: field chains lead to the one array slot."""
+    ty = 'UninitBox'
+
+    def __init__(self):
+        self.slot = [UNINIT]
+
+    def mir_field(self, idx, ty):
+        if ty.lstrip().startswith('['):
+            return self.slot, 0
+        return [self], 0
+
+
+@model(r'(?:std::boxed::)?Box::<\[.*; \d+\]>::new_uninit')
+def box_new_uninit(ex, m, a, fr, dest):
+    return UninitBox()
+
+
+@model(r'(?:std::boxed::)?box_assume_init_into_vec_unsafe::<.*>')
+def box_into_vec(ex, m, a, fr, dest):
+    b = a[0]
+    arr = b.slot[0]
+    return VecV(list(arr.items))
+
+
+@model(r'(?:alloc::slice::|std::slice::)?<impl \[.*\]>::into_vec::<.*>|core::slice::<impl \[.*\]>::into_vec')
+def slice_into_vec(ex, m, a, fr, dest):
+    b = deref(a[0])
+    if isinstance(b, Agg) and b.fields:
+        b = deref(b.fields[0])
+    items, lo, hi = seq_items(b)
+    return VecV(list(items[lo:hi]))
